@@ -166,7 +166,7 @@ def run(ctx):
             total_branches += ok_branches
             need = MIN_BRANCHES.get(cname)
             if need is not None:
-                ctx.ob("codec-sym/branches", f"{ci.qualname}[{N}]", ok_branches >= need, f"{ok_branches} decodable branches analysed, {need} confirmed by hand", reader.loc)
+                ctx.coverage("codec-sym/branches", f"{ci.qualname}[{N}]", ok_branches, need, f"{ok_branches} decodable branches analysed, {need} confirmed by hand", reader.loc)
     ctx.extra["decodable_branches"] = total_branches
     enum_rules(ctx)
     ctx.require("codec-sym/width", 40)
